@@ -48,6 +48,7 @@ type Hazards struct {
 	DigitLeadingDir    bool // q
 	StdSingleClash     bool // a': local package named like a single-element std path (sync, context) added before it
 	GoimportsMismatch  bool // s: -fmt goimports with an unaliased import whose package name differs from its path base
+	NumberedVsQualifier bool // u: a source alias of the form <stem><digits> (v1, v2) where moq numbers unnamed parameters with that stem
 	RegenAliasFeedback bool // o: parameter named like a package that is re-aliased later; the alias is read back on regeneration
 	AliasCapture       bool // t: user parameter named like an alias moq may generate later for an import
 	UnionNamedTerm     bool // r: inline union constraint with a named term (import discovery misses unions)
@@ -366,6 +367,9 @@ func (b *builder) makeDeps() {
 			// an alias equal to the last path element while the package name differs (v2 ".../lib/v2", foo_impl)
 			if base := dir[strings.LastIndex(dir, "/")+1:]; base != name && isIdent(base) && b.chance(0.4) {
 				d.SrcAlias = base
+			}
+			if !b.hz.NumberedVsQualifier && looksNumbered(d.SrcAlias) {
+				d.SrcAlias = name + "x"
 			}
 			if b.chance(0.15) {
 				d.SrcAlias = "."
@@ -687,4 +691,18 @@ func isIdent(s string) bool {
 		}
 	}
 	return true
+}
+
+// looksNumbered reports whether an alias has the form <derived stem><digits>, the names moq hands out when it
+// numbers unnamed parameters (v1, v2, s1, n2, ...).
+func looksNumbered(a string) bool {
+	stem := strings.TrimRight(a, "0123456789")
+	if stem == a || stem == "" {
+		return false
+	}
+	switch stem {
+	case "v", "s", "n", "b", "f", "err", "fn", "val", "ifaceVal":
+		return true
+	}
+	return false
 }
